@@ -1,7 +1,7 @@
 from vlib import runner, sysprops
 
 PARTIAL = [
-    'aborts-at-the-deadline clause: proved up to the last timer-queue poll of an idle-going channel poll reporting nothing expired (C06_aborts_at_deadline_partial); that this implies no tracked request is due needs completeness of the timer-wheel emulation (in progress)',
+    'aborts-at-the-deadline is proved at state level (Props/C06NotLate.lean: an idle basePollNext / an idle Requests::poll_next without a limit leaves no tracked entry with tick <= now) under the clock bound 2^35 ms; C06AbortsAtDeadlineStatement as first written is false for a benign reason (an abandoned request is removed by its queued guard cancellation without an abort) and is kept with its witness',
     'known finding: limiter at its limit and sink not ready (expirations unprocessed)',
 ]
 
